@@ -181,5 +181,6 @@ Definition run_events (l : list Z) : list Z :=
 Definition run_C37 (inp : list Z) : list Z :=
   match inp with
   | 2%Z :: r => run_events r
+  | 3%Z :: r => run_events r   (* same chain, indexed through a capacity-1 event channel *)
   | _ => [(-1)%Z]
   end.
